@@ -27,7 +27,7 @@ pub fn l3_cfg(t: &mut Tape) -> GenCfg {
     cfg.mappable_addrs = true;
     cfg.docs = false;
     cfg.backends = false;
-    cfg.max_items = 4 + t.below(14);
+    cfg.max_items = 4 + t.below(14 * crate::driver::scale());
     cfg.max_fields = 5;
     cfg.max_gap = 24;
     cfg
